@@ -159,7 +159,10 @@ func c12Aged() []*hist.Case {
 		ver     byte
 		cursor  int64
 		offline bool
-	}{{4, 65533, true}, {5, 65534, true}, {5, 65533, false}} {
+		qos     byte
+	}{{4, 65533, true, 1}, {5, 65534, true, 1}, {5, 65533, false, 1}, {5, 65533, false, 2}} {
+		// the last one (QoS 2) exists because a QoS 1 message released late never hands its quota back (open finding): with
+		// QoS 1 only one held-back message is ever released, so a wrong release order cannot show (seeded change C12-e)
 		c := &hist.Case{}
 		c.Cfg.ClientPIDBase = 1000
 		con := hist.Action{Kind: "connect", Client: 0, Version: v.ver, Clean: false}
@@ -170,14 +173,14 @@ func c12Aged() []*hist.Case {
 			}
 		}
 		c.Actions = append(c.Actions, con,
-			hist.Action{Kind: "subscribe", Client: 0, Filters: []refmqtt.Filter{{Filter: "t/#", QoS: 1}}},
+			hist.Action{Kind: "subscribe", Client: 0, Filters: []refmqtt.Filter{{Filter: "t/#", QoS: v.qos}}},
 			hist.Action{Kind: "connect", Client: 1, Version: 4, Clean: true, AutoAck: true},
 			hist.Action{Kind: "pidcursor", Client: 0, Offset: v.cursor})
 		if v.offline {
 			c.Actions = append(c.Actions, hist.Action{Kind: "drop", Client: 0})
 		}
 		for i := 0; i < 4; i++ {
-			c.Actions = append(c.Actions, hist.Action{Kind: "publish", Client: 1, Topic: "t/a", QoS: 1}, hist.Action{Kind: "sleep", Offset: 1100})
+			c.Actions = append(c.Actions, hist.Action{Kind: "publish", Client: 1, Topic: "t/a", QoS: v.qos}, hist.Action{Kind: "sleep", Offset: 1100})
 		}
 		if v.offline {
 			c.Actions = append(c.Actions, con)
@@ -189,7 +192,7 @@ func c12Aged() []*hist.Case {
 }
 
 func TestC12(t *testing.T) {
-	r := evid.New("C12", "rapid: one publisher sends 3-40 tagged messages to two topics at a fixed QoS per topic; the subscriber (persistent session, Receive Maximum 1, 2 or absent, v3.1.1/v5) acknowledges with generated timing, receives bursts of mixed small and large (up to 3000 byte) messages with client write buffers of 16..2048 bytes, is dropped and reconnects with session present in the middle, and finally reconnects and acknowledges everything; all publishes of a generated case fall within the same second or two, which is the situation in which ordering by creation second says nothing; three fixed cases let 1.1 s of real time pass between publishes with the subscriber's packet identifier cursor just below the wrap-around (offline queue and flow-control window); oracle: per (topic, delivered QoS) the first transmissions arrive in publish order, and the batch resent after a CONNACK with session present is in publish order; non-trivial = >=2 messages of one stream were held back or resent together; distinct by history")
+	r := evid.New("C12", "rapid: one publisher sends 3-40 tagged messages to two topics at a fixed QoS per topic; the subscriber (persistent session, Receive Maximum 1, 2 or absent, v3.1.1/v5) acknowledges with generated timing, receives bursts of mixed small and large (up to 3000 byte) messages with client write buffers of 16..2048 bytes, is dropped and reconnects with session present in the middle, and finally reconnects and acknowledges everything; all publishes of a generated case fall within the same second or two, which is the situation in which ordering by creation second says nothing; four fixed cases let 1.1 s of real time pass between publishes with the subscriber's packet identifier cursor just below the wrap-around (offline queue, and flow-control window at QoS 1 and QoS 2); oracle: per (topic, delivered QoS) the first transmissions arrive in publish order, and the batch resent after a CONNACK with session present is in publish order; non-trivial = >=2 messages of one stream were held back or resent together; distinct by history")
 	defer r.Finish(t)
 	if evid.ReplayMode() {
 		evid.Replay(t, r, replayPath(), c12Check)
